@@ -294,3 +294,129 @@ def native_replay_model(pid, key, o, model):
     if script is None:
         return dict(reproduced=False, reason='no native state builder registered for %s' % key)
     return dict(reproduced=False, reason='builder present but no decoded prestate')
+
+
+# ---------------------------------------------------------------------------- native replay of a counter-model
+# (functions whose entry state decodes into plain Python data: ints, bools, reals, str, bytes, None, lists of those,
+# and objects of repository classes whose declared non-ghost fields decode the same way -- one level deep)
+class _NoDecode(Exception):
+    pass
+
+
+def _py_str(v):
+    """z3 string value -> python str (z3 prints non-printable characters as \\u{..} escapes)"""
+    import re as _re
+    s = v.as_string()
+    return _re.sub(r'\\u\{([0-9a-fA-F]+)\}', lambda m: chr(int(m.group(1), 16)), s)
+
+
+def _h0(key, sort):
+    return z3.Const('H0_' + key, sort)
+
+
+def _decode(model, val_t, z, depth=0):
+    from . import types as T
+    from . import registry as R
+    ev = lambda t: model.eval(t, model_completion=True)
+    k = val_t.kind
+    if k == 'none':
+        return None
+    if k == 'int':
+        return ev(z).as_long()
+    if k == 'bool':
+        return z3.is_true(ev(z))
+    if k == 'real':
+        r = ev(z)
+        return float(r.numerator_as_long()) / float(r.denominator_as_long())
+    if k == 'str':
+        return _py_str(ev(z))
+    if k == 'bytes':
+        return {'__bytes__': [ord(ch) for ch in _py_str(ev(z))]}
+    if k == 'union':
+        if not val_t.args:
+            raise _NoDecode('Any')
+        for a in val_t.args:
+            if a.kind == 'none':
+                if z3.is_true(ev(T.PyVal.is_none(z))):
+                    return None
+                continue
+            if z3.is_true(ev(T.tester(a, z))):
+                if a.is_reflike:
+                    # object alternatives are told apart by the dynamic class: only the unambiguous case is decoded
+                    if sum(1 for b in val_t.args if b.is_reflike) > 1:
+                        raise _NoDecode('several object alternatives')
+                return _decode(model, a, T.unbox(a, z), depth)
+        raise _NoDecode('union alternative')
+    if k == 'list':
+        r = ev(z)
+        if r.as_long() == 0:
+            return None
+        et = val_t.args[0]
+        if et.kind == 'unknown':
+            raise _NoDecode('untyped list')
+        es = T.sort_of(et)
+        I = z3.IntSort()
+        n = ev(z3.Select(_h0('$llen:' + T.sort_name(es), z3.ArraySort(I, I)), r)).as_long()
+        if n < 0 or n > 12:
+            raise _NoDecode('list length %d' % n)
+        arr = z3.Select(_h0('$larr:' + T.sort_name(es), z3.ArraySort(I, z3.ArraySort(I, es))), r)
+        return [_decode(model, et, z3.Select(arr, i), depth + 1) for i in range(n)]
+    if k == 'tuple':
+        dt = T.sort_of(val_t)
+        return {'__tuple__': [_decode(model, a, dt.accessor(0, i)(z), depth + 1) for i, a in enumerate(val_t.args)]}
+    if k == 'ref':
+        r = ev(z)
+        if r.as_long() == 0:
+            return None
+        if depth >= 2:
+            raise _NoDecode('object nesting')
+        ci = R.CLASSES.get(val_t.name)
+        if ci is None or not ci.module:
+            raise _NoDecode('class %s has no module' % val_t.name)
+        fields = {}
+        for cn in R.mro(val_t.name):
+            c2 = R.CLASSES.get(cn)
+            if c2 is None:
+                continue
+            for f, ft in c2.fields.items():
+                if f in c2.ghost or f in fields:
+                    continue
+                fz = z3.Select(_h0('%s.%s' % (cn, f), z3.ArraySort(z3.IntSort(), T.sort_of(ft))), r)
+                fields[f] = _decode(model, ft, fz, depth + 1)
+        return {'__object__': val_t.name, 'module': ci.module, 'fields': fields}
+    raise _NoDecode(k)
+
+
+def replay_spec(ob):
+    """JSON description of how to run the real function on the counter-model's entry state, and of the outcome the
+    counter-model predicts; None when the entry state does not decode into plain data."""
+    from . import types as T
+    ent = getattr(ob, 'entry', None)
+    if ent is None or ob.model is None or ob.outcome is None:
+        return None
+    fn, c = ent['fn'], ent['contract']
+    if getattr(c, 'yields', False):
+        return None
+    args = []
+    try:
+        for name, v in ent['params']:
+            if v.t.kind == 'typeobj':
+                args.append((name, {'__class__': fn.cls}))
+                continue
+            if v.t.kind in ('fn', 'xtuple', 'kwargs', 'seq', 'setv', 'set', 'dict', 'mapv'):
+                return None
+            args.append((name, _decode(ob.model, v.t, v.z)))
+        kind, what = ob.outcome
+        if kind == 'raise':
+            predicted = {'outcome': 'raised', 'exc': what}
+        else:
+            try:
+                predicted = {'outcome': 'returned', 'value': _decode(ob.model, what.t, what.z)}
+            except _NoDecode:
+                predicted = {'outcome': 'returned'}
+    except _NoDecode:
+        return None
+    except Exception:
+        return None
+    return dict(module=fn.module, qual=c.qual, cls=fn.cls, args=args, predicted=predicted,
+                obligation_kind=('raises-only' if ob.label.startswith('raises-only') else 'post'))
